@@ -122,6 +122,12 @@ class RaggedHistory(Engine):
             return M.gen_meta_op(rng)
         if k == 'delete':
             return {'op': 'delete'}
+        if k == 'copycheck':
+            return {'op': 'copycheck'}
+        if k == 'recreate':
+            c = self.gen_create(rng)
+            c['op'] = 'recreate'
+            return c
         raise HarnessError(k)
 
     ENUM_LEN = 4
@@ -370,6 +376,13 @@ class _RState:
         if self.h is None:
             self.log(k, 'skipped_no_array')
             return
+        if k == 'recreate':
+            if op['how'] == 'create_raggedarray' and self.steps % 4:
+                op = dict(op, how='asraggedarray', dtypearg=None, **{'as': 'list'},
+                          items=[{'rows': 1, 'trail': 'match', 'layout': 'C', 'form': 'ndarray', 'vseed': 3,
+                                  'dtype': op['dtype'], 'gen': 'rand'}])
+            self.probe('recreated_with_overwrite')
+            return self.do_create(op, overwrite=True)
         if k == 'delete' and self.has('ro') and self.mode != 'r':
             self.h.accessmode = 'r'
             self.mode = 'r'
@@ -380,14 +393,14 @@ class _RState:
             return
         getattr(self, 'do_' + (k if not k.startswith('meta_') else 'meta'))(op)
 
-    def do_create(self, op):
+    def do_create(self, op, overwrite=False):
         darr = self.darr
         md = M.build_dict(op['metadata']) if op.get('metadata') is not None else None
         atom = tuple(op['atom'])
         dtype = np.dtype(op['dtype'])
         if op['how'] == 'create_raggedarray':
             h = darr.create_raggedarray(self.path, atom=atom, dtype=dtype, metadata=md,
-                                        accessmode=op['mode'], indextype=op['indextype'])
+                                        accessmode=op['mode'], indextype=op['indextype'], overwrite=overwrite)
             L = []
             mdtype = dtype
             self.probe('created_empty')
@@ -403,11 +416,11 @@ class _RState:
                 L = [np.array(np.asarray(o, dtype=mdtype), copy=True) for o in objs]
             it = objs if op.get('as', 'list') == 'list' else (o for o in objs)
             h = darr.asraggedarray(self.path, it, dtype=dtarg, metadata=md, accessmode=op['mode'],
-                                   indextype=op['indextype'])
+                                   indextype=op['indextype'], overwrite=overwrite)
         self.h, self.L, self.atom, self.dtype = h, L, atom, np.dtype(mdtype)
         self.indextype, self.mode = op['indextype'], op['mode']
         self.meta = M.json_normalise(md) if md else {}
-        self.log('create', 'ok', {'how': op['how']})
+        self.log(op['op'], 'ok', {'how': op['how']})
         self.after_step(op)
 
     def model_item(self, obj):
@@ -655,6 +668,28 @@ class _RState:
             self.mutations_ok += 1
         self.log(op['op'], out)
         self.after_step(op)
+
+    def do_copycheck(self, op):
+        import shutil
+        p2 = os.path.join(self.sb, 'copy.darr')
+        shutil.rmtree(p2, ignore_errors=True)
+        exc = self.call(lambda: self.h.copy(p2))
+        if exc is not None:
+            raise Viol('model.copy', f'raises:{type(exc).__name__}', str(exc)[:200])
+        if self.has('readme'):
+            r = check_ragged_readme(p2, self.scratch, model_lens=[a.shape[0] for a in self.L])
+            if r:
+                raise Viol(r[0] + '_copy', r[1], r[2])
+        if self.has('decoder'):
+            try:
+                subs, v, i, top = decode_ragged_dir(p2)
+            except DecodeError as e:
+                raise Viol('decoder.copy', str(e).split(':')[0], str(e))
+            if len(subs) != len(self.L) or any(not D.arr_equal(a, b)[0] for a, b in zip(subs, self.L)):
+                raise Viol('decoder.copy', 'contents', '')
+        shutil.rmtree(p2, ignore_errors=True)
+        self.probe('copy_checked')
+        self.log('copycheck', 'ok')
 
     def do_delete(self, op):
         exc = self.call(lambda: self.darr.delete_raggedarray(self.h))
